@@ -34,12 +34,13 @@ ErrOtf(t) ==
     ELSE IF t.ok /\ ~t.same THEN 2915                       \* result differs from the three stages run one by one
     ELSE IF ~t.clean THEN 2916                              \* an absolute path of the run in a cloud-safe output
     ELSE 0
-\* validate: {"kind":"validate", "fixed":b, "nmapped":n, "steps":[{"dest", "ok", "vkind", "same", "rec"}]}
+\* validate: {"kind":"validate", "fixed":b, "unk":b, "nmapped":n, "steps":[{"dest", "ok", "vkind", "same", "rec"}]}
 RECURSIVE ErrVal(_, _, _)
 ErrVal(t, i, f) ==
     IF i > Len(t.steps) THEN 0
     ELSE LET st == t.steps[i]
-             r  == AfterValidate(f, st.dest, t.nmapped)
+             rw == f.fixed /\ f.unk /\ st.vkind = "written"     \* placeholders renamed in another second
+             r  == AfterValidate(f, st.dest, t.nmapped, rw)
          IN  IF ~st.ok THEN 2921                            \* the runner failed on a file it must accept
              ELSE IF st.vkind # r.kind THEN 2922            \* valid file is not the one the rule names (written / copy / input)
              ELSE IF ~st.same THEN 2923                     \* cells, genes or matrix of the valid file are not the expected ones
@@ -47,7 +48,7 @@ ErrVal(t, i, f) ==
              ELSE ErrVal(t, i + 1, r.file)
 Err(t) == IF t.kind = "names" THEN ErrNames(t)
           ELSE IF t.kind = "otf" THEN ErrOtf(t)
-          ELSE ErrVal(t, 1, [fixed |-> t.fixed, rec |-> None3])
+          ELSE ErrVal(t, 1, [fixed |-> t.fixed, unk |-> t.unk, rec |-> None3])
 ASSUME \A i \in 1..(2 * N) : TLCSet(i, 0)
 Init == tid \in 1..N /\ l = 1
 Step == /\ l = 1
